@@ -24,10 +24,12 @@ import (
 // Module is one loaded Go module of the repository (root or v2), or a
 // generated corpus module analysed against it.
 type Module struct {
-	Name string // "v2", "root", or a corpus name
-	Dir  string
-	Path string // module import path
-	Fset *token.FileSet
+	// Renamed maps "pkgrel\tDeclName" of a known function that was renamed to its successor (see fold.go).
+	Renamed map[string]*types.Func
+	Name    string // "v2", "root", or a corpus name
+	Dir     string
+	Path    string // module import path
+	Fset    *token.FileSet
 	// Pkgs maps the import path relative to the module path ("restlicodec",
 	// "restli/batchkeyset", "" for the module root) to the package.
 	Pkgs map[string]*packages.Package
@@ -130,6 +132,7 @@ func LoadModule(name, dir string, patterns []string, skip func(rel string) bool)
 		return nil, &LoadError{fmt.Sprintf("load %s: zero analysed packages", dir)}
 	}
 	if name == "v2" || name == "root" {
+		ExplicitReturns(m)
 		m.Folded = FoldNewHelpers(m)
 		DebugPrintFunc(m)
 	}
@@ -246,6 +249,24 @@ func (m *Module) FuncDecls(rel string) []*ast.FuncDecl {
 // LookupFunc resolves "Name" (package-level function) or "(*T).M" / "(T).M" /
 // "T.M" (method) in the package with module-relative path rel.
 func (m *Module) LookupFunc(rel, name string) *types.Func {
+	if f := m.lookupFunc(rel, name); f != nil {
+		return f
+	}
+	// a recognised rename of the anchor
+	keys := []string{name}
+	if i := strings.LastIndex(name, "."); i >= 0 {
+		tn := strings.TrimPrefix(strings.TrimSuffix(strings.TrimPrefix(name[:i], "("), ")"), "*")
+		keys = []string{"(*" + tn + ")." + name[i+1:], tn + "." + name[i+1:]}
+	}
+	for _, k := range keys {
+		if f := m.Renamed[rel+"\t"+k]; f != nil {
+			return f
+		}
+	}
+	return nil
+}
+
+func (m *Module) lookupFunc(rel, name string) *types.Func {
 	p := m.Pkgs[rel]
 	if p == nil {
 		return nil
